@@ -7,5 +7,6 @@ CONSTANTS
   MaxPeer = 2
   MaxOps = 3
   DeleteOnMatch = FALSE
+  WaitDecodes = TRUE
 INVARIANTS MatchOnce
 CHECK_DEADLOCK FALSE
